@@ -686,3 +686,73 @@ def r12(ctx):
     if n < 4:
         raise AnalysisError("_Compiler.from_toml: table too small")
     ctx.floor(6)
+
+
+@rule("C12.R13", "the custom argparse actions: split / match the value, format it, and replace (store_split; extend_match with `override`, once) or extend (extend_match) the destination - passes keyed by the option's first flag")
+def r13(ctx):
+    """Table specification of _StoreSplitAction.__call__ and _ExtendMatchAction.__call__."""
+    from ..spec import tab, vt
+
+    repo = ctx.repo
+    FMT = "comp:[string.Template(self.format).substitute(value=_c0) for _c0 in {src}]"
+    # ---- store_split
+    f = repo.cls("config", "_StoreSplitAction").find_method("__call__")
+    vals = f.params[3]
+    n = 0
+    for p in tab(f, unroll=1):
+        at = {vt(k): v for k, v in p.atoms.items()}
+        if p.result[0] == "raise":
+            continue
+        fmt, passes = at.get("self.format"), next((v for k, v in at.items() if k in ("'passes' Eq self.dest", "self.dest Eq 'passes'")), None)
+        key = f"config:_StoreSplitAction.__call__:format={fmt},passes={passes}"
+        if fmt is None or passes is None:
+            raise AnalysisError(f"_StoreSplitAction.__call__: row not recognised: {p.describe()[:160]}")
+        src = f"{vals}.split(self.sep)"
+        V = FMT.format(src=src) if fmt else src
+        stores = [(vt(e[1]), vt(e[2])) for e in p.effects if e[0] == "store"]
+        sets = [[vt(x) for x in e[2:]] for e in p.effects if e[0] == "call" and e[1] == "setattr"]
+        n += 1
+        if passes:
+            ok = stores == [("namespace._passes[self.option_strings[0]]", V)] and not sets
+        else:
+            ok = sets == [["namespace", "self.dest", V]] and not stores
+        ctx.check(ok, key, f"store_split must store the (formatted) pieces of the value - for `passes` under the option's first flag, otherwise in the destination: stores {stores}, setattr {sets}", f.loc())
+    # ---- extend_match
+    g = repo.cls("config", "_ExtendMatchAction").find_method("__call__")
+    val = g.params[3]
+    init = repo.cls("config", "_ExtendMatchAction").find_method("__init__")
+    ok = any(isinstance(s, ast.Assign) and u(s.targets[0]) == "self.flag_name" and u(s.value) == f"{init.params[1]}[0]" for s in walk_no_nested(init.node))
+    ctx.check(ok, "config:_ExtendMatchAction.__init__:flag_name", "the key under which an option's passes are kept must be its first flag", init.loc())
+    for p in tab(g, unroll=1):
+        at = {vt(k): v for k, v in p.atoms.items()}
+        if p.result[0] == "raise":
+            continue
+        fmt, ovr = at.get("self.format"), at.get("self.override")
+        passes = next((v for k, v in at.items() if k in ("'passes' Eq self.dest", "self.dest Eq 'passes'")), None)
+        key = f"config:_ExtendMatchAction.__call__:format={fmt},passes={passes},override={ovr}"
+        if fmt is None or passes is None or ovr is None:
+            raise AnalysisError(f"_ExtendMatchAction.__call__: row not recognised: {p.describe()[:160]}")
+        src = f"re.findall(self.pattern, {val})"
+        M = FMT.format(src=src) if fmt else src
+        stores = [(vt(e[1]), vt(e[2])) for e in p.effects if e[0] == "store"]
+        calls = [(vt(e[1]), [vt(x) for x in e[2:]]) for e in p.effects if e[0] == "call"]
+        n += 1
+        K = "namespace._passes[self.flag_name]"
+        if passes and ovr:
+            final = [v for t, v in stores if t == K]
+            ok = bool(final) and final[-1] == M and ("self.override", "False") in stores and not [c for c in calls if c[0].endswith(".extend")]
+            why = "with `override`, the first use replaces what the option held (its default) and switches `override` off, so that later uses extend"
+        elif passes:
+            ok = [c for c in calls if c[0] == f"{K}.extend"] == [(f"{K}.extend", [M])] and all(t != K or v == "[]" for t, v in stores) and ("self.override", "False") not in stores
+            why = "without `override`, the matches are appended to what the option already holds"
+        elif ovr:
+            ok = [c for c in calls if c[0] == "setattr"] == [("setattr", ["namespace", "self.dest", M])] or [v for t, v in stores if t in ("vars(namespace)[self.dest]", "namespace.__dict__[self.dest]")] == [M]
+            why = "with `override`, the destination is replaced by the matches"
+        else:
+            ext = [c for c in calls if c[0].endswith(".extend")]
+            ok = len(ext) == 1 and ext[0][1] == [M] and ext[0][0] in ("getattr(namespace, self.dest).extend", "namespace.self.dest.extend", "vars(namespace)[self.dest].extend", "namespace.__dict__[self.dest].extend") and not [c for c in calls if c[0] == "setattr"]
+            why = "the matches are appended to the destination, after what is already there (command-line order)"
+        ctx.check(ok, key, f"extend_match: {why}: stores {stores}, calls {calls}", g.loc())
+    if n < 10:
+        raise AnalysisError(f"custom actions: only {n} rows recognised")
+    ctx.floor(10)
